@@ -9,6 +9,8 @@ import (
 	"testing"
 	"time"
 
+	bsctypes "github.com/teleport-network/teleport/x/xibc/clients/light-clients/bsc/types"
+	ethtypes "github.com/teleport-network/teleport/x/xibc/clients/light-clients/eth/types"
 	clienttypes "github.com/teleport-network/teleport/x/xibc/core/client/types"
 	"github.com/teleport-network/teleport/x/xibc/core/host"
 	"github.com/teleport-network/teleport/x/xibc/exported"
@@ -317,6 +319,22 @@ func (c *caseRun) step(st step) {
 			return
 		}
 		cons := in.cons
+		if (in.typ == tBSC || in.typ == tETH) && in.flaw == "" && !strings.HasPrefix(variant, "foreign-cons") && c.rng.Intn(4) == 0 {
+			// the consensus state's own Height field is neither validated nor read by these clients (the state is stored under
+			// the header's height): whatever it says, the client must come out initialised for its HEADER
+			hs := []clienttypes.Height{{}, clienttypes.NewHeight(0, in.installed.RevisionHeight+7), clienttypes.NewHeight(3, 1)}[c.rng.Intn(3)]
+			switch t := cons.(type) {
+			case *bsctypes.ConsensusState:
+				cp := *t
+				cp.Height = hs
+				cons = &cp
+			case *ethtypes.ConsensusState:
+				cp := *t
+				cp.Height = hs
+				cons = &cp
+			}
+			r.Count("lifecycle/consensus-state-height-field-differs-from-header", 1)
+		}
 		if strings.HasPrefix(variant, "foreign-cons:") && strings.TrimPrefix(variant, "foreign-cons:") == typ {
 			// the step's type was resolved to the slot's current type after the variant was drawn
 			variant = "foreign-cons:" + other(typ, c.rng.Intn(3))
